@@ -718,8 +718,13 @@ def gen_limiter_scenario(rng, backend):
             ops.append(["event", rng.choice(live), env.mk_event(0, 1, env.NOW - 5, [], "l%d" % k)])
         elif x < 0.75:
             ops.append(["req", rng.choice(live), "s%d" % rng.randrange(2), [{"kinds": [1], "limit": 2}]])
-        elif x < 0.9:
+        elif x < 0.85:
             ops.append(["close", rng.choice(live), "s0"])
+        elif x < 0.92:
+            # message types in another letter case are not commands: neither served nor counted
+            k += 1
+            ops.append(["raw", rng.choice(live), rng.choice(['["req","lc",{"kinds":[1],"limit":1}]', '["Close","s0"]',
+                                                             json.dumps(["event", env.mk_event(1, 1, env.NOW - 5, [], "lc%d" % k)]), '["Req","lc2",{"kinds":[1]}]'])])
         else:
             c = rng.choice(live)
             ops.append(["drop", c])
@@ -916,6 +921,10 @@ def suite_app_limiter(tier, seed, backends=("sql",), n=None):
             s.case({"backend": b, "conf": sc["conf"], "n_ops": len(sc["ops"])}, nontrivial=0 < ref < len(dec))
             # every attempt / well-formed message exactly once
             expect = sum(1 for o, ob in zip(sc["ops"], a["obs"]) if o[0] in ("open", "event", "req", "close") and ob.get("note") != "gone")
+            served_raw = [i for i, (o, ob) in enumerate(zip(sc["ops"], a["obs"])) if o[0] == "raw" and ob["frames"]]
+            if served_raw:
+                s.violate("limiter-bypassed", dict(sc, ops=sc["ops"][: served_raw[0] + 1]), "a message whose type is not EVENT / REQ / CLOSE in upper case was answered "
+                          "(operation %d): it is served without being counted by any rule" % served_raw[0], observed=a["obs"][served_raw[0]])
             if len(dec) != expect:
                 s.violate("limiter-bypassed", sc, "%d limiter decisions for %d connection attempts + well-formed messages" % (len(dec), expect), observed=dec[:20])
             arr = [x[:3] if len(x) == 4 else x for x in a["limiter"]]
@@ -1050,7 +1059,7 @@ def suite_app_auth(tier, seed, backends=("sql", "kv"), n=None):
 # which property checks run which application-level suites (the assembled application is one more path on
 # which the property has to hold; the scenarios differ per property through the seed label)
 APP_SUITES = {
-    "C03": ["store"], "C06": ["store"], "C08": ["store"], "C13": ["store"], "C16": ["store", "lists"], "C19": ["store", "auth", "limiter"],
+    "C03": ["store"], "C06": ["store"], "C08": ["store"], "C13": ["store", "limiter"], "C16": ["store", "lists"], "C19": ["store", "auth", "limiter"],
     "C01": ["store"], "C14": ["auth"], "C15": ["auth"], "C18": ["limiter"], "C17": ["gc"], "C05": ["auth"], "C02": ["store"],
 }
 
